@@ -389,6 +389,23 @@ def generate(rng, tier):
                 short_arm = True
             else:
                 els = [('M', p0), ('C', p0, c, e)] if rng.random() < 0.6 else [('M', p0), ('C', c, e, e)]
+        flat_arm = False
+        if k % 8 == 3:
+            # nearly flat cubics whose first (or last) control arm is under 1 % of the chord - they take the "potentially a cusp" path of do_cubic - and whose
+            # control points sit between a few tolerances and sqrt(tolerance) off the chord: not collinear, must be stroked as curves
+            kind = 'flat-short-arm'
+            flat_arm = True
+            L_ = rng.uniform(20, 100)
+            tol_f = 10.0 ** rng.uniform(-3, -2)
+            h_ = rng.uniform(8 * tol_f, 0.9 * math.sqrt(tol_f))
+            ang_ = rng.uniform(0, 2 * math.pi)
+            ca, sa = math.cos(ang_), math.sin(ang_)
+            o_ = (rng.uniform(-5, 5), rng.uniform(-5, 5))
+            loc = [(0.0, 0.0), (rng.uniform(0.001, 0.008) * L_, h_), (rng.uniform(0.4, 0.8) * L_, h_), (L_, 0.0)]
+            if rng.random() < 0.5:
+                loc = [(L_ - x, y) for x, y in reversed(loc)]
+            wpts = [(o_[0] + ca * x - sa * y, o_[1] + sa * x + ca * y) for x, y in loc]
+            els = [('M', wpts[0]), ('C', wpts[1], wpts[2], wpts[3])]
         join, cap = (k // 4) % 3, (k // 12) % 3
         if rng.random() < 0.3:
             join, cap = rng.randint(0, 2), rng.randint(0, 2)
@@ -398,6 +415,8 @@ def generate(rng, tier):
             tol = max(1e-3, w / 8)
         if short_arm:
             tol = 10.0 ** rng.uniform(-3, -2.5)
+        if flat_arm:
+            tol, w = tol_f, rng.choice([0.3, 1.0, 2.0])
         ml = rng.choice([1.5, 4.0, 10.0])
         pat, off = [], 0.0
         if rng.random() < 0.3:
@@ -411,7 +430,7 @@ def generate(rng, tier):
 TIGHT_TURN = 2.0     # radians: cusps, hairpins and loops; a tight but short bend (e.g. next to a short control arm) does not count
 
 
-def tight_points(src, hw):
+def tight_points(src, hw, min_turn=None):
     """sample points of curved source segments where the radius of curvature is below the half width (incl. cusps: speed ~ 0)"""
     pts = []
     for seg in src:
@@ -467,7 +486,7 @@ def tight_points(src, hw):
                     dlt = abs(a - prev)
                     turn += min(dlt, 2 * math.pi - dlt)
                 prev = a
-            if turn >= TIGHT_TURN:
+            if turn >= (TIGHT_TURN if min_turn is None else min_turn):
                 # a stretch that is tight but hardly turns (the curvature blows up next to a retracted handle, over a negligible length) is harmless
                 pts.extend(bez_eval(seg, m / N) for m in range(i, k + 1))
             i = k + 1
@@ -497,8 +516,11 @@ def tight_curvature(case, outs, verdict):
     segs = O.path_segments(src_els)
     allp = [p for seg in segs for p in seg]
     whole = max(max(p[0] for p in allp) - min(p[0] for p in allp), max(p[1] for p in allp) - min(p[1] for p in allp))
+    # a point left uncovered: the inverted piece of an offset (winding -1 wherever the radius of curvature is below the half width) cancels a neighbour -
+    # no cusp needed; a point covered outside the bound: a spike, which needs the tangent to turn sharply
+    min_turn = 0.0 if 'has winding 0 there' in verdict else None
     for seg in segs:
-        if len(seg) > 2 and tight_points([seg], hw):
+        if len(seg) > 2 and tight_points([seg], hw, min_turn):
             diam = max(math.hypot(a[0] - b[0], a[1] - b[1]) for a in seg for b in seg)
             if seg_nearest(q, seg)[0] <= max(8 * hw + 3 * tol, 0.5 * diam, 0.2 * whole):
                 return True
